@@ -29,7 +29,7 @@ def correspondence(ctx):
         # insert the marker before the numeric stages
         i = s.index("hcompute")
         return s[:i + 1] + ["note quadratic"] + s[i + 1:]
-    pipeline.numeric_campaign(ctx, ["C12"], ("gf", "vertex"), 24, 300, max_modes_quick=3, max_modes_thorough=4,
+    pipeline.numeric_campaign(ctx, ["C12"], ("gf", "vertex"), 24, 300, near=4, max_modes_quick=3, max_modes_thorough=4,
                               allow=("hop", "hop", "level", "user2", "spinflip_hop"), extra=mark,
                               nontrivial=lambda meta, s: meta["modes"] >= 2, ngf=9)
 
